@@ -25,7 +25,7 @@ func init() {
 	// secretscan: args = token(hex), dump.
 	// Phase 1 establishes the detector hypothesis of the model on this very case: for every cell text of at least
 	// 8 bytes the real ScanString reports something iff the text contains the planted token.
-	// Phase 2 runs ScanDumpResult and prints the coordinates of the findings whose Raw is the token.
+	// Phase 2 runs ScanDumpResult and prints the coordinates of the findings whose Raw is the token, in the order reported.
 	core.Register("secretscan", func(args []string) string {
 		tok := string(core.Unhex(args[0]))
 		dump := parseDump(args[1])
@@ -64,6 +64,40 @@ func init() {
 				seen[c] = true
 				out = append(out, c)
 			}
+		}
+		// in the order reported (first occurrence of every coordinate)
+		return joinS(out, ";")
+	})
+}
+
+func init() {
+	// cellfmt: args = value; the text scanTable scans (fmt.Sprintf("%v", value)), as hex
+	core.Register("cellfmt", func(args []string) string {
+		return hexs(fmt.Sprintf("%v", parseVal(args[0])))
+	})
+}
+
+func init() {
+	// secretbig: args = token(hex), reps.  One table, one row, one large text cell ending in the token.
+	// The case line is tiny, the cell is not: the envelope is set for the cell size the generator uses
+	// (>= 80 KiB): 32 MiB is several hundred times the cell, and far below the ~1000 x cell that lower-casing the
+	// whole text once per keyword of every detector costs.
+	core.SetEnvelope("secretbig", 1, 32<<20, 10000)
+	core.Register("secretbig", func(args []string) string {
+		tok := string(core.Unhex(args[0]))
+		cell := strings.Repeat("lorem ipsum dolor sit amet ", core.Atoi(args[1])) + tok
+		dump := &pgdump.DumpResult{Databases: []pgdump.DatabaseDump{{Name: "d", Tables: []pgdump.TableDump{{Name: "t",
+			Columns: []pgdump.ColumnInfo{{Name: "id"}, {Name: "body"}},
+			Rows:    []map[string]interface{}{{"id": int32(1), "body": cell}}}}}}}
+		seen := map[string]bool{}
+		var out []string
+		for _, f := range theScanner().ScanDumpResult(dump) {
+			if f.Raw == tok {
+				seen[fmt.Sprintf("%s/%s/%d/%s", hexs(f.Database), hexs(f.Table), f.RowIndex, hexs(f.Column))] = true
+			}
+		}
+		for c := range seen {
+			out = append(out, c)
 		}
 		sort.Strings(out)
 		return joinS(out, ";")
